@@ -1,37 +1,55 @@
-(* C07 -- every package derived by any history of Thermo(...), subset, extended, ideal keeps its mixture
-   models aligned with its own chemicals. *)
+(* C07 -- every package derived by any history of Thermo(...), subset, extended, ideal, interleaved with ANY
+   changes of the chemicals, keeps its mixture models aligned with its own chemicals and evaluates their
+   CURRENT functors. *)
 From Coq Require Import List Bool.
 From V Require Import C07.Gen_Packages C07.Packages.
 Import ListNotations.
 
-Definition aligned (p : pkg) : Prop := p_models p = p_chems p.
+Section Facts.
+  Variable St : Type.
 
-Lemma subset_aligned p sel : aligned (subset_of p sel).
-Proof.
-  unfold aligned, subset_of, IdealThermo_subset_rebuilds_mixture, Thermo_subset_rebuilds_mixture, mixture_models_of.
-  destruct (p_ideal p); reflexivity.
-Qed.
+  Definition aligned (p : pkg St) : Prop :=
+    map fst (p_models p) = p_chems p /\ Forall (fun e => snd e = None) (p_models p).
 
-Lemma pstep_aligned s o : Forall aligned s -> Forall aligned (pstep s o).
-Proof.
-  intros F. destruct o as [cs|i sel|i extra|i]; simpl.
-  - apply Forall_app; split; [exact F|]. constructor; [reflexivity | constructor].
-  - destruct (nth_error s i) as [p|]; [|exact F]. apply Forall_app; split; [exact F|].
-    constructor; [apply subset_aligned | constructor].
-  - destruct (nth_error s i) as [p|]; [|exact F]. apply Forall_app; split; [exact F|].
-    constructor; [apply subset_aligned | constructor].
-  - destruct (nth_error s i) as [p|] eqn:Hi; [|exact F]. apply Forall_app; split; [exact F|].
-    constructor; [|constructor].
-    assert (A : aligned p) by (rewrite Forall_forall in F; apply F; eapply nth_error_In; eauto).
-    destruct (p_ideal p); [exact A|]. unfold ideal_shares_chemicals_and_mixture. exact A.
-Qed.
+  Lemma build_aligned st cs : aligned (mkPkg false cs (build_models St st cs)) /\
+                              forall b, aligned (mkPkg b cs (build_models St st cs)).
+  Proof.
+    assert (A : forall b, aligned (mkPkg b cs (build_models St st cs))).
+    { intros b. unfold aligned, build_models, mixture_models_live, mixture_models_of. simpl. split.
+      - rewrite map_map. simpl. apply map_id.
+      - apply Forall_forall. intros e He. apply in_map_iff in He. destruct He as (c & <- & _). reflexivity. }
+    split; [apply A | exact A].
+  Qed.
 
-Lemma prun_aligned ops : forall s, Forall aligned s -> Forall aligned (prun s ops).
-Proof.
-  induction ops as [|o ops IH]; intros s F; simpl; [exact F|]. apply IH. apply pstep_aligned. exact F.
-Qed.
+  Lemma subset_aligned st p sel : aligned (subset_of St st p sel).
+  Proof.
+    unfold subset_of, IdealThermo_subset_rebuilds_mixture, Thermo_subset_rebuilds_mixture.
+    destruct (p_ideal p); apply build_aligned.
+  Qed.
 
-Lemma packages_aligned ops p : In p (prun [] ops) -> p_models p = p_chems p.
-Proof.
-  intros Hin. pose proof (prun_aligned ops [] (Forall_nil _)) as F. rewrite Forall_forall in F. exact (F p Hin).
-Qed.
+  Lemma pstep_aligned s o : Forall aligned (snd s) -> Forall aligned (snd (pstep St s o)).
+  Proof.
+    destruct s as [st ps]. intros F. simpl in F. destruct o as [cs|i sel|i extra|i|f]; simpl.
+    - apply Forall_app; split; [exact F|]. constructor; [apply build_aligned | constructor].
+    - destruct (nth_error ps i) as [p|]; [|exact F]. simpl. apply Forall_app; split; [exact F|].
+      constructor; [apply subset_aligned | constructor].
+    - destruct (nth_error ps i) as [p|]; [|exact F]. simpl. apply Forall_app; split; [exact F|].
+      constructor; [apply subset_aligned | constructor].
+    - destruct (nth_error ps i) as [p|] eqn:Hi; [|exact F]. simpl. apply Forall_app; split; [exact F|].
+      constructor; [|constructor].
+      assert (A : aligned p) by (rewrite Forall_forall in F; apply F; eapply nth_error_In; eauto).
+      destruct (p_ideal p); [exact A|]. unfold ideal_shares_chemicals_and_mixture. exact A.
+    - exact F.
+  Qed.
+
+  Lemma prun_aligned ops : forall s, Forall aligned (snd s) -> Forall aligned (snd (prun St s ops)).
+  Proof.
+    induction ops as [|o ops IH]; intros s F; simpl; [exact F|]. apply IH. apply pstep_aligned. exact F.
+  Qed.
+
+  Lemma packages_aligned st0 ops p : In p (snd (prun St (st0, []) ops)) ->
+    map fst (p_models p) = p_chems p /\ Forall (fun e => snd e = None) (p_models p).
+  Proof.
+    intros Hin. pose proof (prun_aligned ops (st0, []) (Forall_nil _)) as F. rewrite Forall_forall in F. exact (F p Hin).
+  Qed.
+End Facts.
